@@ -598,7 +598,15 @@ class Machine:
                 if op["asvoigt"]:
                     idx = [(0, 0), (1, 1), (0, 1)] if dd == 2 else [(0, 0), (1, 1), (2, 2), (0, 1), (1, 2), (0, 2)]
                     ref = np.array([ref[i, j] * (1.0 if i == j else 2.0) for i, j in idx])
-            self.check_ref(name, got, ref, site=f"strain[tensor={op['tensor']},asvoigt={op['asvoigt'] and op['tensor']},k={k_},via={via}]", rtol=1e-9)
+            # conditioning: the eigenvalues w of C are known to about 1e-16 max|w|; a strain measure
+            # f(w) = (w^(k/2) - 1) / k (log for k = 0) turns that into 1e-16 max|w| |f'(w)| with
+            # f'(w) = w^(k/2 - 1) / 2 - large for a nearly singular C and negative k, and an absolute floor
+            # for nearly undeformed states where the strain itself is tiny
+            with np.errstate(all="ignore"):
+                wa = np.abs(wv)
+                cond = float(np.nanmax(wa)) * float(np.nanmax(0.5 * wa ** ((k_ or 0) / 2.0 - 1.0))) if np.size(wv) else 1.0
+            cond = cond if np.isfinite(cond) else 1e300
+            self.check_ref(name, got, ref, site=f"strain[tensor={op['tensor']},asvoigt={op['asvoigt'] and op['tensor']},k={k_},via={via}]", rtol=1e-9, scale=1e-3 * max(1.0, cond))
             self.sigs.append(f"strain:{op['tensor']}:{op['asvoigt']}:{k_}:{via}")
         elif name == "linsteps":
             pts, num, endpoint = op["points"], op["num"], op["endpoint"]
